@@ -388,6 +388,147 @@ def serverAcceptsSecond (selectedGroup : Nat) (shares : List KS) : Bool :=
   | [s] => s.group == selectedGroup
   | _ => false
 
+/-! ## ECHConfigList: parsing, selection, HPKE info (ech.go `parseECHConfig`, `parseECHConfigList`,
+`pickECHConfig`, `pickECHCipherSuite`; `info := "tls ech\x00" ‖ config.raw`) -/
+
+structure EchConfig where
+  raw : Bytes                    -- this entry's own bytes: version ‖ length ‖ contents
+  configId : Nat
+  kemId : Nat
+  publicKey : Bytes
+  suites : List (Nat × Nat)      -- (KDF, AEAD)
+  maxNameLen : Nat
+  publicName : Bytes
+  exts : List (Nat × Bytes)
+  deriving DecidableEq, Repr
+
+def parseSuiteList : Bytes → Option (List (Nat × Nat))
+  | [] => some []
+  | [a, c, d, e] => some [(a.toNat * 256 + c.toNat, d.toNat * 256 + e.toNat)]
+  | a :: c :: d :: e :: r => (parseSuiteList r).map ((a.toNat * 256 + c.toNat, d.toNat * 256 + e.toNat) :: ·)
+  | _ => none
+
+def parseCfgExts : Nat → Bytes → Option (List (Nat × Bytes))
+  | 0, bs => if bs.isEmpty then some [] else none
+  | f + 1, bs =>
+    if bs.isEmpty then some [] else
+    match readU16 bs with
+    | none => none
+    | some (t, r) =>
+      match readVec16 r with
+      | none => none
+      | some (d, r') => (parseCfgExts f r').map ((t, d) :: ·)
+
+/-- the fields of an ECHConfig, read from the bytes after the 4-byte header. As in the Go code the
+reader is the *remainder of the list* (not bounded by the entry's length field) and trailing bytes
+are not inspected. (`raw` is filled in by `parseConfig`.) -/
+def parseConfigFields (s : Bytes) : Option EchConfig :=
+  match readU8 s with
+  | none => none
+  | some (cid, s1) =>
+    match readU16 s1 with
+    | none => none
+    | some (kem, s2) =>
+      match readVec16 s2 with
+      | none => none
+      | some (pk, s3) =>
+        match readVec16 s3 with
+        | none => none
+        | some (cs, s4) =>
+          match parseSuiteList cs with
+          | none => none
+          | some suites =>
+            match readU8 s4 with
+            | none => none
+            | some (mnl, s5) =>
+              match readVec8 s5 with
+              | none => none
+              | some (pn, s6) =>
+                match readVec16 s6 with
+                | none => none
+                | some (eb, _) =>
+                  (parseCfgExts eb.length eb).map fun es => ⟨[], cid, kem, pk, suites, mnl, pn, es⟩
+
+inductive CfgRes where
+  | malformed
+  | skip                 -- unknown version: not part of the parsed list
+  | cfg (c : EchConfig)
+  deriving DecidableEq, Repr
+
+/-- `parseECHConfig(enc)`; `enc` is the remainder of the list starting at this entry.
+`raw` is cut to exactly this entry: `ec.raw = ec.raw[:ec.Length+4]`. -/
+def parseConfig (enc : Bytes) : CfgRes :=
+  match readU16 enc with
+  | none => .malformed
+  | some (version, r) =>
+    match readU16 r with
+    | none => .malformed
+    | some (len, r2) =>
+      if enc.length < len + 4 then .malformed else
+      let raw := enc.take (len + 4)
+      if version ≠ extECH then .skip else
+      match parseConfigFields r2 with
+      | none => .malformed
+      | some c => .cfg { c with raw := raw }
+
+/-- `configLen := uint16(s[2])<<8 | uint16(s[3])` -/
+def entryLen (s : Bytes) : Nat :=
+  match s with
+  | _ :: _ :: a :: c :: _ => a.toNat * 256 + c.toNat
+  | _ => 0
+
+def parseListAux : Nat → Bytes → Option (List EchConfig)
+  | 0, s => if s.isEmpty then some [] else none
+  | f + 1, s =>
+    if s.isEmpty then some [] else
+    if s.length < 4 then none else
+    match parseConfig s with
+    | .malformed => none
+    | .skip => parseListAux f (s.drop (entryLen s + 4))
+    | .cfg c => (parseListAux f (s.drop (entryLen s + 4))).map (c :: ·)
+
+/-- `parseECHConfigList(data)`: `none` = malformed. -/
+def parseConfigList (data : Bytes) : Option (List EchConfig) :=
+  match readU16 data with
+  | none => none
+  | some (n, s) => if n ≠ (data.length - 2) % 65536 then none else parseListAux s.length s
+
+def splitDots : Bytes → List Bytes
+  | [] => [[]]
+  | c :: cs =>
+    match splitDots cs with
+    | [] => [[c]]
+    | p :: ps => if c = 46 then [] :: p :: ps else (c :: p) :: ps
+
+def labelCharOk (c : UInt8) : Bool :=
+  (48 ≤ c.toNat && c.toNat ≤ 57) || (97 ≤ c.toNat && c.toNat ≤ 122) || (65 ≤ c.toNat && c.toNat ≤ 90) || c == 45
+
+/-- `validDNSName` (bytes ≥ 0x80 are never allowed characters, so bytes and runes agree). -/
+def validDNSName (name : Bytes) : Bool :=
+  let labels := splitDots name
+  name.length ≤ 253 && labels.length > 1 &&
+  labels.all fun l => !l.isEmpty && l.all labelCharOk && l.head? != some 45 && l.getLast? != some 45
+
+def suiteSupported (s : Nat × Nat) : Bool := s.1 == 1 && (s.2 == 1 || s.2 == 2 || s.2 == 3)
+
+def configUsable (c : EchConfig) : Bool :=
+  c.kemId == 0x0020 && c.suites.any suiteSupported && validDNSName c.publicName &&
+  c.exts.all (fun e => e.1 / 32768 % 2 == 0)
+
+/-- `pickECHConfig`: the first usable config. -/
+def pickConfig (cs : List EchConfig) : Option EchConfig := cs.find? configUsable
+
+/-- `pickECHCipherSuite`: the first supported suite. -/
+def pickSuite (c : EchConfig) : Option (Nat × Nat) := c.suites.find? suiteSupported
+
+def infoPrefix : Bytes := [116, 108, 115, 32, 101, 99, 104, 0]   -- "tls ech\x00"
+
+/-- HPKE `info` of the client: from the picked config's `raw`. -/
+def hpkeInfo (c : EchConfig) : Bytes := infoPrefix ++ c.raw
+
+/-- … and of the server: from the bytes of the `EncryptedClientHelloKey.Config` it was given. -/
+def hpkeInfoOfBytes (config : Bytes) : Bytes := infoPrefix ++ config
+
 /-! ## accept / reject signalling, retry configs -/
 
 /-- symbolic primitives. -/
@@ -396,13 +537,17 @@ structure Crypto where
   conf : Nat → Bytes → Bytes → Bytes
   /-- `typeMessageHash` replacement of the first hello after a HelloRetryRequest -/
   mhash : Bytes → Bytes
-  /-- HPKE under key `k`: hseal / open -/
+  /-- HPKE key schedule: recipient public key, `info` ↦ context -/
+  ctx : Bytes → Bytes → Nat
+  /-- HPKE under context `k`: seal / open -/
   hseal : Nat → Bytes → Bytes → Bytes
   hopen : Nat → Bytes → Bytes → Option Bytes
 
 structure Crypto.Laws (C : Crypto) : Prop where
   hopen_hseal : ∀ k aad pt, C.hopen k aad (C.hseal k aad pt) = some pt
   hopen_other : ∀ k k' aad pt, k ≠ k' → C.hopen k' aad (C.hseal k aad pt) = none
+  /-- a different key or a different `info` gives a different context -/
+  ctx_inj : ∀ pk info pk' info', C.ctx pk info = C.ctx pk' info' → pk = pk' ∧ info = info'
 
 /-- what the ECH logic reads of a ServerHello / HelloRetryRequest. -/
 structure SHello where
@@ -413,12 +558,19 @@ structure SHello where
   raw : Bytes                -- the message as hashed into the transcript
   deriving Repr
 
-/-- a server key: HPKE key id, its ECHConfig bytes, SendAsRetry. -/
+/-- a server key (`EncryptedClientHelloKey`): the public key of its private key, the ECHConfig bytes
+it was configured with, SendAsRetry. -/
 structure SKey where
-  kid : Nat
+  pk : Bytes
   config : Bytes
   sendAsRetry : Bool
   deriving Repr
+
+/-- the server's HPKE context for a key: `info = "tls ech\x00" ‖ echKey.Config`. -/
+def SKey.ctxOf (C : Crypto) (k : SKey) : Nat := C.ctx k.pk (hpkeInfoOfBytes k.config)
+
+/-- the client's HPKE context: picked config's public key, `info` from its `raw`. -/
+def clientCtx (C : Crypto) (c : EchConfig) : Nat := C.ctx c.publicKey (hpkeInfo c)
 
 /-- `buildRetryConfigList`: `none` when no key is marked SendAsRetry. -/
 def retryList (keys : List SKey) : Option Bytes :=
@@ -434,7 +586,7 @@ inductive SrvView where
   deriving Repr
 
 def tryKeys (C : Crypto) (keys : List SKey) (outer : Hello) (aad payload : Bytes) : SrvView :=
-  match keys.findSome? (fun k => C.hopen k.kid aad payload) with
+  match keys.findSome? (fun k => C.hopen (k.ctxOf C) aad payload) with
   | none => .rejected (retryList keys)
   | some pt =>
     match decodeInner outer pt with
